@@ -742,4 +742,58 @@ example : (AdvStep.step torchStep 1 (AdvStep.sgd (1/2)) (AdvStep.sgd (1/4))
     ⟨[[[1, 0], [0, 1]], [[1, 0]]], [[[1, 1], [0, 1]], [[0, 0]]], [[[4, 8]]]⟩).map (fun m => (m.pred.params, m.adv.params)) =
     some ([[[4/3, 5/6], [0, 4/3]], [[1/2, 1]]], [[[1, 2]]]) := by decide +kernel
 
+/-! ### α re-scheduled between steps (session 3; seeded C16c cached `alpha` at engine construction) -/
+
+section AlphaSchedule
+open AdvStep Adversarial
+
+theorem runSched_none {τP τA : Type} (eng : Mat → Mat → Rat → Option Mat) (optP : Opt τP) (optA : Opt τA)
+    (s : List (Rat × Grads)) : runSched eng optP optA (none : Option (Model τP τA)) s = none := by
+  cases s <;> rfl
+
+/-- schedules compose: running `s₁ ++ s₂` is running `s₂` from the result of `s₁` -/
+theorem runSched_append {τP τA : Type} (eng : Mat → Mat → Rat → Option Mat) (optP : Opt τP) (optA : Opt τA)
+    (m : Option (Model τP τA)) (s₁ s₂ : List (Rat × Grads)) :
+    runSched eng optP optA m (s₁ ++ s₂) = runSched eng optP optA (runSched eng optP optA m s₁) s₂ := by
+  induction s₁ generalizing m with
+  | nil => cases m <;> cases s₂ <;> rfl
+  | cons x xs ih =>
+    cases m with
+    | none => simp [runSched, runSched_none]
+    | some m => obtain ⟨α, g⟩ := x; simp only [List.cons_append, runSched]; exact ih _
+
+/-- **Every step of a run uses the α in force at THAT step**: if the run succeeds, the `k`-th step is `step eng αₖ`
+    applied to the model the first `k` steps produced — whatever α the earlier steps (or the constructor) had. -/
+theorem runSched_step_uses_own_alpha {τP τA : Type} (eng : Mat → Mat → Rat → Option Mat) (optP : Opt τP) (optA : Opt τA)
+    (m : Model τP τA) (pre : List (Rat × Grads)) (α : Rat) (g : Grads) (post : List (Rat × Grads))
+    (mk : Model τP τA) (hk : runSched eng optP optA (some m) pre = some mk) :
+    runSched eng optP optA (some m) (pre ++ (α, g) :: post)
+      = runSched eng optP optA (step eng α optP optA mk g) post := by
+  rw [runSched_append, hk]; rfl
+
+/-- a constant schedule is the fold of the constant-α step (the whole-`fit` model of `advstep.fit`) -/
+theorem runSched_const {τP τA : Type} (eng : Mat → Mat → Rat → Option Mat) (optP : Opt τP) (optA : Opt τA) (α : Rat)
+    (m : Option (Model τP τA)) (gs : List Grads) :
+    runSched eng optP optA m (gs.map (fun g => (α, g)))
+      = gs.foldl (fun acc g => acc.bind (fun mm => step eng α optP optA mm g)) m := by
+  induction gs generalizing m with
+  | nil => cases m <;> rfl
+  | cons g gs ih =>
+    cases m with
+    | none =>
+      simp only [List.map_cons, runSched, List.foldl_cons, Option.bind_none]
+      rw [← ih]; exact (runSched_none eng optP optA _).symm
+    | some mm => simp only [List.map_cons, runSched, List.foldl_cons, Option.bind_some]; exact ih _
+
+/-- non-vacuity: a two-step run whose second step has another α than the first (1×1 tensors, plain SGD) succeeds, and
+    ends elsewhere than the run that keeps the first α — the schedule is observable -/
+example : (runSched torchStep (sgd (1/2)) (sgd (1/4)) (some ⟨⟨[[[1]]], [()]⟩, ⟨[[[1]]], [()]⟩⟩)
+      [(0, ⟨[[[1]]], [[[2]]], [[[1]]]⟩), (1, ⟨[[[1]]], [[[2]]], [[[1]]]⟩)]).map (fun m => (m.pred.params, m.adv.params))
+      = some ([[[2]]], [[[1/2]]]) ∧
+    (runSched torchStep (sgd (1/2)) (sgd (1/4)) (some ⟨⟨[[[1]]], [()]⟩, ⟨[[[1]]], [()]⟩⟩)
+      [(0, ⟨[[[1]]], [[[2]]], [[[1]]]⟩), (0, ⟨[[[1]]], [[[2]]], [[[1]]]⟩)]).map (fun m => (m.pred.params, m.adv.params))
+      = some ([[[1]]], [[[1/2]]]) := by decide +kernel
+
+end AlphaSchedule
+
 end C16
